@@ -432,8 +432,8 @@ class Inliner:
             for st in new:
                 _stamp(st, s)
             return new, None, True
-        if isinstance(s, ast.Assign) and is_whole and len(s.targets) == 1 and isinstance(s.targets[0], ast.Tuple) and all(isinstance(e, ast.Name) for e in s.targets[0].elts):
-            tnames = {e.id for e in s.targets[0].elts}
+        if isinstance(s, ast.Assign) and is_whole and len(s.targets) == 1 and isinstance(s.targets[0], ast.Tuple) and all(isinstance(e, ast.Name) or (isinstance(e, ast.Attribute) and isinstance(e.value, ast.Name) and e.value.id == "self" and not any(isinstance(x, ast.Attribute) and x.attr == e.attr for st_ in body for x in ast.walk(st_))) for e in s.targets[0].elts):
+            tnames = {e.id for e in s.targets[0].elts if isinstance(e, ast.Name)}
             rets = _returns_of(body)
             if rets and all(isinstance(r.value, ast.Tuple) and len(r.value.elts) == len(s.targets[0].elts) for r in rets) and not (tnames & _names_loaded(body)):
                 conv = _single_exit(body, s.targets[0])
@@ -706,3 +706,181 @@ def expand_unknown_helpers(tree: ast.Module, modname: str, known: Set[str]) -> T
     inl = Inliner(tree, modname, known)
     inl.run()
     return tree, inl.expanded
+
+
+# ---------------------------------------------------------------- literal loops
+def _loop_free_of(stmts, kinds) -> bool:
+    for s in stmts:
+        for n in [s] + list(_own_walk(s)):
+            if isinstance(n, kinds):
+                return False
+    return True
+
+
+def _continue_to_else(stmts: List[ast.stmt]) -> Optional[List[ast.stmt]]:
+    """body of a loop iteration without `continue`: `if c: continue; rest`
+    becomes `if not c: rest` (nested loops keep their own continues)"""
+    out: List[ast.stmt] = []
+    for i, s in enumerate(stmts):
+        rest = stmts[i + 1:]
+        if isinstance(s, ast.Continue):
+            return out if out else [ast.Pass()]
+        if isinstance(s, ast.If) and (_has_continue(s.body) or _has_continue(s.orelse)):
+            body = _continue_to_else(list(s.body) + ([clone_ast(x) for x in rest] if not _ends_with_continue(s.body) else []))
+            orelse = _continue_to_else(list(s.orelse) + (list(rest) if not _ends_with_continue(s.orelse) else []))
+            if body is None or orelse is None:
+                return None
+            if _ends_with_continue(s.body) and len(s.body) == 1 and not s.orelse:
+                # `if c: continue` + rest  ->  `if not c: rest`
+                tail = _continue_to_else(list(rest))
+                if tail is None:
+                    return None
+                out.append(ast.If(test=ast.UnaryOp(op=ast.Not(), operand=s.test), body=tail or [ast.Pass()], orelse=[]))
+                return out
+            out.append(ast.If(test=s.test, body=body or [ast.Pass()], orelse=[x for x in orelse if not isinstance(x, ast.Pass)]))
+            return out
+        if isinstance(s, (ast.Try, ast.With)) and _has_continue([s]):
+            return None
+        out.append(s)
+    return out
+
+
+def _has_continue(stmts) -> bool:
+    for s in stmts:
+        if isinstance(s, ast.Continue):
+            return True
+        if isinstance(s, (ast.For, ast.While, ast.FunctionDef, ast.AsyncFunctionDef, ast.ClassDef)):
+            continue
+        for fld in ("body", "orelse", "finalbody"):
+            b = getattr(s, fld, None)
+            if isinstance(b, list) and b and isinstance(b[0], ast.stmt) and _has_continue(b):
+                return True
+        if isinstance(s, ast.Try):
+            for h in s.handlers:
+                if _has_continue(h.body):
+                    return True
+    return False
+
+
+def _ends_with_continue(stmts) -> bool:
+    return bool(stmts) and isinstance(stmts[-1], ast.Continue)
+
+
+def _has_break(stmts) -> bool:
+    for s in stmts:
+        if isinstance(s, ast.Break):
+            return True
+        if isinstance(s, (ast.For, ast.While, ast.FunctionDef, ast.AsyncFunctionDef, ast.ClassDef)):
+            continue
+        for fld in ("body", "orelse", "finalbody"):
+            b = getattr(s, fld, None)
+            if isinstance(b, list) and b and isinstance(b[0], ast.stmt) and _has_break(b):
+                return True
+        if isinstance(s, ast.Try):
+            for h in s.handlers:
+                if _has_break(h.body):
+                    return True
+    return False
+
+
+def _pure_simple(v: ast.AST) -> bool:
+    if _simple(v):
+        return True
+    if isinstance(v, ast.UnaryOp):
+        return _pure_simple(v.operand)
+    if isinstance(v, ast.Tuple):
+        return all(_pure_simple(e) for e in v.elts)
+    return False
+
+
+class LoopUnroller(ast.NodeTransformer):
+    """`for a, b in ((x1, y1), (x2, y2)): body` over a literal tuple/list of at
+    most 4 items whose body has no `break`: the iterations are written out,
+    `continue` turned into `else`.  Only loops whose items are names,
+    attributes, constants or unary operations of such (no call is duplicated or
+    re-ordered) and whose targets are not rebound in the body."""
+
+    MAX_ITEMS = 4
+
+    def __init__(self):
+        self.count = 0
+        self.tables: List[Dict[str, ast.AST]] = []
+
+    def _function(self, node):
+        # locals bound exactly once to a literal tuple/list and never touched otherwise
+        stores: Dict[str, int] = {}
+        vals: Dict[str, ast.AST] = {}
+        touched = set()
+        for n in _own_walk(node):
+            if isinstance(n, ast.Name) and isinstance(n.ctx, (ast.Store, ast.Del)):
+                stores[n.id] = stores.get(n.id, 0) + 1
+            if isinstance(n, ast.Assign) and len(n.targets) == 1 and isinstance(n.targets[0], ast.Name) and isinstance(n.value, (ast.Tuple, ast.List)):
+                vals[n.targets[0].id] = n.value
+            if isinstance(n, ast.Attribute) and isinstance(n.value, ast.Name) and n.attr in ("append", "extend", "insert", "remove", "pop", "sort", "reverse", "clear"):
+                touched.add(n.value.id)
+            if isinstance(n, (ast.AugAssign,)) and isinstance(n.target, ast.Name):
+                touched.add(n.target.id)
+            if isinstance(n, ast.Subscript) and isinstance(n.ctx, (ast.Store, ast.Del)) and isinstance(n.value, ast.Name):
+                touched.add(n.value.id)
+        params = {a.arg for a in node.args.posonlyargs + node.args.args + node.args.kwonlyargs}
+        self.tables.append({k: v for k, v in vals.items() if stores.get(k) == 1 and k not in touched and k not in params})
+        self.generic_visit(node)
+        self.tables.pop()
+        return node
+
+    visit_FunctionDef = _function
+    visit_AsyncFunctionDef = _function
+
+    def visit_For(self, node: ast.For):
+        self.generic_visit(node)
+        it = node.iter
+        if isinstance(it, ast.Name) and self.tables and it.id in self.tables[-1]:
+            it = self.tables[-1][it.id]
+        if not isinstance(it, (ast.Tuple, ast.List)) or not (1 <= len(it.elts) <= self.MAX_ITEMS) or node.orelse:
+            return node
+        if any(isinstance(e, ast.Starred) for e in it.elts) or not all(_pure_simple(e) for e in it.elts):
+            return node
+        if _has_break(node.body) or not _loop_free_of(node.body, (ast.Yield, ast.YieldFrom)):
+            return node
+        tnames = {t.id for t in ast.walk(node.target) if isinstance(t, ast.Name)}
+        if not all(isinstance(t, (ast.Name, ast.Tuple, ast.List)) for t in ast.walk(node.target) if not isinstance(t, (ast.Store, ast.Load))):
+            return node
+        for s in node.body:
+            for n in [s] + list(_own_walk(s)):
+                if isinstance(n, ast.Name) and isinstance(n.ctx, (ast.Store, ast.Del)) and n.id in tnames:
+                    return node
+                if isinstance(n, (ast.Lambda, ast.FunctionDef)):
+                    return node  # late binding of the loop variable
+        out: List[ast.stmt] = []
+        for e in it.elts:
+            m: Dict[str, ast.AST] = {}
+            if not _bind_literal(node.target, e, m):
+                return node
+            body = [clone_ast(s) for s in node.body]
+            body = [_Rename({}, m).visit(s) for s in body]
+            if _has_continue(body):
+                body = _continue_to_else(body)
+                if body is None:
+                    return node
+            for s in body:
+                _stamp(s, node)
+            out.extend(body)
+        self.count += 1
+        return out or [ast.Pass()]
+
+
+def _bind_literal(t: ast.AST, v: ast.AST, m: Dict[str, ast.AST]) -> bool:
+    if isinstance(t, ast.Name):
+        m[t.id] = v
+        return True
+    if isinstance(t, (ast.Tuple, ast.List)) and isinstance(v, (ast.Tuple, ast.List)) and len(t.elts) == len(v.elts):
+        return all(_bind_literal(a, b, m) for a, b in zip(t.elts, v.elts))
+    return False
+
+
+def unroll_literal_loops(tree: ast.Module) -> int:
+    u = LoopUnroller()
+    u.visit(tree)
+    if u.count:
+        ast.fix_missing_locations(tree)
+    return u.count
